@@ -8,6 +8,7 @@ VLens == {0, 1, 5, 252, 253, 254, 255, 256, 300, 1000}
 CTypes == {8, 8, 8, 1, 32, 50, 54, 65535}
 Comp == [t : {1, 8, 32, 50, 54, 65535}, vlen : VLens]
 Names == {<<>>} \cup [1..1 -> Comp] \cup [1..2 -> [t : {8, 50}, vlen : {0, 1, 252, 253, 300}]] \cup [1..3 -> [t : {8}, vlen : {0, 253, 300}]]
+         \cup [1..6 -> [t : {8}, vlen : {0, 1}]]     \* many short and empty components (a name of n empty components is 2n bytes)
 HintSets == { <<>>, << <<[t |-> 8, vlen |-> 1]>> >>, << <<[t |-> 8, vlen |-> 253]>>, <<[t |-> 8, vlen |-> 0], [t |-> 8, vlen |-> 5]>> >> }
 \* shapes are drawn field by field from the boundary sets (the full products are far beyond what can be enumerated)
 RandData(i) == [comps |-> RandomElement(Names), ct |-> RandomElement({-1, 0, 255, 256}), fresh |-> RandomElement({-1, 0, 255, 65536}),
